@@ -26,6 +26,7 @@ type Obligation struct {
 	Millis  int64
 	Output  string
 	script  string
+	syntactic bool
 }
 
 type State struct {
@@ -98,6 +99,7 @@ type Exec struct {
 	litIndex map[*ast.FuncLit]int
 	closures map[types.Object]*ast.FuncLit
 	inlineDepth int
+	initGlobals bool
 }
 
 func (x *Exec) unsupported(n ast.Node, format string, a ...any) {
